@@ -311,7 +311,7 @@ impl Prop for C08 {
     }
 
     fn runs(tier: Tier) -> u64 {
-        tier.pick(6_000, 400_000)
+        tier.pick(30_000, 1_000_000)
     }
 
     fn generate(r: &mut Rng, tier: Tier, _idx: u64) -> Scn {
